@@ -12,7 +12,7 @@ FUNCTIONAL = True
 def generate(rng, tier):
     n = 1500 if tier == "quick" else 30000
     cases = []
-    fixed = ["mktool-1.3.2nb2", "mktool-1.3.2nb", "mktool-1.3-2", "mktool", "1.0nb2", "", "-", "--", "a-", "-1", "nb-nb", "a-nb1nb2", "a-1nb+5", "a-1nb-5",
+    fixed = ["-foo-1.0", "--1.0nb2", "--x-y-3", "-1.0", "a-", "mktool-1.3.2nb2", "mktool-1.3.2nb", "mktool-1.3-2", "mktool", "1.0nb2", "", "-", "--", "a-", "-1", "nb-nb", "a-nb1nb2", "a-1nb+5", "a-1nb-5",
              "a-1nb99999999999999999999", "a-1nb007", "a-1nbnb3", "a-1nnb4", "é-1nb2", "a-1NB3", "a-1nb3x", "a-nb", "foo-bar-1.0nb12"]
     names = list(fixed)
     for _ in range(n):
@@ -26,6 +26,9 @@ def generate(rng, tier):
         names.append("-".join(parts + [v]) if rng.random() < 0.9 else "".join(parts) + v)
     for nm in names:
         cases.append(Case("pkgname", [enc(nm)], meta={"n": nm}))
+        if "\n" not in nm and "\r" not in nm:
+            # pkg_summary's pkgbase()/pkgversion() must give the same split
+            cases.append(Case("sum.ops", ["s:15:" + enc(nm)], meta={"n": nm, "sum": True}))
         # revision as used by the comparison: name-version vs the same version with nb k
         if "-" in nm:
             base, ver = nm.rsplit("-", 1)
@@ -43,6 +46,19 @@ def nontrivial(c):
 
 def laws(cases, obsI):
     out = []
+    byname = {}
+    for i, c in enumerate(cases):
+        if c.op == "pkgname":
+            byname[c.meta["n"]] = i
+    for i, c in enumerate(cases):
+        if c.op == "sum.ops" and obsI[i] and "|B=" in obsI[i] and c.meta["n"] in byname:
+            j = byname[c.meta["n"]]
+            if obsI[j] is None or "|" not in obsI[j]:
+                continue
+            b, v, _ = obsI[j].split("|")
+            f = dict(x.split("=", 1) for x in obsI[i].split("|") if "=" in x)
+            if b != "-" and v != "-" and (f.get("B") != "S" + b or f.get("V") != "S" + v):
+                out.append({"kind": "summary-split-agrees", "idxs": [i, j], "detail": "Summary %s/%s vs PkgName %s/%s" % (f.get("B"), f.get("V"), b, v)})
     for i, c in enumerate(cases):
         if c.op != "pkgname" or obsI[i] is None or "|" not in obsI[i]:
             continue
